@@ -224,12 +224,37 @@ struct Eval {
     regex_ok: bool,
     regex_lens: Vec<usize>,
 }
+/// (rule, url, first evaluation, an evaluation after the cached regex was discarded)
+static DISCARD_MISMATCH: std::sync::Mutex<Vec<(String, String, bool, bool)>> = std::sync::Mutex::new(Vec::new());
+/// The same rule on the same request under a manager that throws every compiled regex away at once
+/// (the public discard policy): the first answer, then two answers after a discard each.  The
+/// pattern semantics do not mention whether the regex is compiled for the first time or again.
+fn after_discard(f: &NetworkFilter, req: &Request) -> Vec<bool> {
+    let mut rm = RegexManager::default();
+    rm.set_discard_policy(adblock::regex_manager::RegexManagerDiscardPolicy {
+        cleanup_interval: std::time::Duration::from_nanos(1),
+        discard_unused_time: std::time::Duration::ZERO,
+    });
+    let mut out = vec![f.matches(req, &mut rm)];
+    for _ in 0..2 {
+        std::thread::sleep(std::time::Duration::from_micros(60));
+        rm.update_time();
+        out.push(f.matches(req, &mut rm));
+    }
+    out
+}
 fn eval(rule: &str, url: &str) -> Result<Eval, String> {
     let f = NetworkFilter::parse(rule, true, Default::default()).map_err(|e| format!("parse:{:?}", e))?;
     let req = Request::new(url, "https://source.example.org/", "script").map_err(|_| "request".to_string())?;
     let d = adblock::verif_hooks::dump_filter(&f);
     let mut rm = RegexManager::default();
     let matches = f.matches(&req, &mut rm);
+    if f.mask.contains(NetworkFilterMask::IS_REGEX) || f.mask.contains(NetworkFilterMask::IS_COMPLETE_REGEX) {
+        let again = after_discard(&f, &req);
+        if let Some(b) = again.iter().find(|b| **b != matches) {
+            DISCARD_MISMATCH.lock().unwrap().push((rule.to_string(), url.to_string(), matches, *b));
+        }
+    }
     let mut rm2 = RegexManager::default();
     let pattern_ok = adblock::filters::verif::check_pattern(f.mask, f.filter.iter(), f.hostname.as_deref(), 1u64, &req, &mut rm2);
     let url_lc = adblock::request::verif::url_lower_cased(&req).to_string();
@@ -489,7 +514,11 @@ fn replay(v: &Value, path: &std::path::Path) -> i32 {
                 "rule {:?} url {:?} host {:?}: mask {:#x} filter {:?} hostname {:?}; matches = {}, ABP semantics = {:?}; F22 class {}, degenerate {}",
                 rule, e.url, e.host, e.mask, e.filter, e.hostname, e.matches, want, host_right_pipe(rule), degenerate(rule)
             );
-            if want.is_some() && want != Some(e.matches) {
+            let dm = DISCARD_MISMATCH.lock().unwrap().clone();
+            if let Some((_, _, a, b)) = dm.first() {
+                println!("first evaluation = {}, evaluation after the compiled regex was discarded and built again = {}", a, b);
+            }
+            if (want.is_some() && want != Some(e.matches)) || !dm.is_empty() {
                 println!("VIOLATION property=C02 replay={}", path.display());
                 1
             } else if rp["engine"].as_bool().unwrap_or(false) {
@@ -517,7 +546,7 @@ fn main() {
     let mut cs = Cases::new(&a.out, "C02_Model");
     let mut sm = Summary::default();
     let mut ostats: std::collections::BTreeMap<String, u64> = Default::default();
-    sm.rule = "A: (filter host, request host) pairs built to collide (label-aligned suffixes/prefixes, infixes, leading/trailing dots, repeated hosts) x wildcard x at_hostname_end; non-trivial = the filter host occurs in the request host. B: filter texts from the pattern grammar incl. degenerate spellings x anchors; non-trivial = contains '^', '*' or an escaped character. C: option-free rule lines (grammar of DESIGN.md 3.4 + ||host^, ||host|, ||host*x, |scheme:// forms, /re/) x URLs built from the rule or from the host universe; non-trivial = the crate's check_pattern returned true or the rule is hostname-anchored with an occurrence of its host in the request host".into();
+    sm.rule = "A: (filter host, request host) pairs built to collide (label-aligned suffixes/prefixes, infixes, leading/trailing dots, repeated hosts) x wildcard x at_hostname_end; non-trivial = the filter host occurs in the request host. B: filter texts from the pattern grammar incl. degenerate spellings x anchors; non-trivial = contains '^', '*' or an escaped character. C: option-free rule lines (grammar of DESIGN.md 3.4 + ||host^, ||host|, ||host*x, |scheme:// forms, /re/) x URLs built from the rule or from the host universe; non-trivial = the crate's check_pattern returned true or the rule is hostname-anchored with an occurrence of its host in the request host. Every rule on the regex path is also evaluated under a manager that discards each compiled regex at once (first answer and two answers after a discard must agree)".into();
 
     // witnesses of the known finding F22 (so that the class stays exercised) and of the three
     // findings repaired in /repo (a regression is a plain violation), plus credentials in the URL
@@ -765,6 +794,9 @@ fn main() {
     sweep(&mut sm, &mut ostats, if a.tier == "thorough" { 5 } else { 3 });
     for (k, v) in ostats {
         cs.stats.insert(k, v);
+    }
+    for (rule, url, a, b) in DISCARD_MISMATCH.lock().unwrap().iter().take(20) {
+        sm.failure(None, &format!("rule {:?} on {:?}: matches = {} on the first evaluation and {} after its compiled regex was discarded (discard policy) and built again", rule, url, a, b), json!({"rule": rule, "url": url}));
     }
     cs.finish();
     sm.write(&a.out, &cs);
